@@ -117,7 +117,7 @@ func suiteC10(s *Suite, rng *Rng, tier string) {
 			s.Violate("C10:altered-update-accepted", "Update.Verify accepted an altered update: "+kind, L{kind, in})
 		}
 		if !altered && !ok {
-			s.Violate("C10:honest-update-rejected", "honest update rejected: "+kind, L{kind})
+			s.Violate("C10:honest-update-rejected", "honest update rejected: "+kind, L{kind, in, S(out)})
 		}
 		if out.(L)[0] == 2 {
 			s.Violate("C10:update-verify-panicked", "Update.Verify panicked: "+kind, L{kind, in})
@@ -269,8 +269,12 @@ func suiteC10(s *Suite, rng *Rng, tier string) {
 							}
 						}
 					}
-					if len(um.Events) == 0 {
+					saccSame := string(um.SignedAccumulator.Data) == string(base.SignedAccumulator.Data) && um.SignedAccumulator.PKCounter == base.SignedAccumulator.PKCounter
+					if len(um.Events) == 0 && saccSame {
 						shorter = true // an update without events is accepted by design (time refresh)
+					}
+					if !saccSame {
+						shorter = false
 					}
 					verifyCase10("json-mutated:"+kind, &um, !same && !shorter)
 				}
